@@ -72,6 +72,8 @@ type Agent struct {
 	putDIDs map[string]bool // keys put into the peer DID store
 	putKeys map[string]bool // keys put into the DID connection store
 
+	routerConns []string // connections with mediators the agent's new DIDs are routed through
+
 	cfg                   Config
 	mainStore, stateStore storage.Provider
 	reg                   *msghandler.Registrar
@@ -281,7 +283,11 @@ func (a *Agent) build() error {
 			return err
 		}
 
-		go service.AutoExecuteActionEvent(act)
+		go func() {
+			for e := range act {
+				e.Continue(&contOpts{a})
+			}
+		}()
 
 		st := make(chan service.StateMsg, 256)
 		if err = c.RegisterMsgEvent(st); err != nil {
@@ -539,4 +545,16 @@ func (a *Agent) coqPaths() []string {
 	}
 
 	return out
+}
+
+// contOpts are the arguments the agent's application continues connection protocol actions with.
+type contOpts struct{ a *Agent }
+
+func (c *contOpts) PublicDID() string { return "" }
+func (c *contOpts) Label() string     { return c.a.Name }
+func (c *contOpts) RouterConnections() []string {
+	c.a.mu.Lock()
+	defer c.a.mu.Unlock()
+
+	return append([]string{}, c.a.routerConns...)
 }
